@@ -126,7 +126,8 @@ static int rand_add(uint8_t *state, uint8_t *hash, size_t size) {
  * @param[in] out_len		- the number of bytes to write.
  */
 static void rand_gen(uint8_t *out, size_t out_len) {
-	int m = RLC_CEIL(out_len, RLC_MD_LEN);
+	/* An empty request needs no block (RLC_CEIL wraps for zero). */
+	int m = (out_len == 0 ? 0 : RLC_CEIL(out_len, RLC_MD_LEN));
 	uint8_t hash[RLC_MD_LEN], data[(RLC_RAND_SIZE - 1)/2];
 	ctx_t *ctx = core_get();
 
